@@ -163,6 +163,84 @@ def _hier_case(repo, it, S, spec):
     return n, out
 
 
+def _explicit_case(repo, it, S, spec):
+    """the same hierarchies given as an explicit Parent chain (Parent(..., parent=Parent(location=..., parent=...))), while the
+    Sequence objects of the levels carry no parent ('plain'), a parent that only names the next level ('named'), or one that
+    knows the placement on the next level but nothing above it ('shallow').  The explicit chain is authoritative."""
+    lv1, lv2, child_layout, child_strand, style = spec
+    out = []
+    n = 0
+    st = it.enum("SequenceType")
+    LOCQ = "location.location:Location"
+    f_type = repo.fn(f"{LOCQ}.lift_over_to_first_ancestor_of_type")
+    chrom = chrom_parent(it, GENOME, alphabet=ALPHA)
+    chrom_seq = chrom.fields["sequence"]
+    bare = lambda blocks, sn: _mk_loc(it, S, blocks, sn, None)  # noqa: E731
+    l1_blocks, l1_strand = lv1
+    img1 = image(l1_blocks, l1_strand)
+
+    def seq_parent(up_id, up_type, up_seq, blocks, sn):
+        if style == "plain":
+            return None
+        if style == "named":
+            return mk_parent(it, id=up_id, sequence_type=up_type, sequence=up_seq)
+        return mk_parent(it, id=up_id, sequence_type=up_type, sequence=up_seq, location=bare(blocks, sn))
+
+    seq1 = mk_sequence(it, img1, ALPHA, id="lvl1", type=st["SEQUENCE_CHUNK"],
+                       parent=seq_parent("chr1", st["CHROMOSOME"], chrom_seq, l1_blocks, l1_strand))
+    chain = [(l1_blocks, l1_strand)]
+    top = mk_parent(it, id="chr1", sequence_type=st["CHROMOSOME"], sequence=chrom_seq, location=bare(l1_blocks, l1_strand))
+    if lv2 is None:
+        level_parent = mk_parent(it, id="lvl1", sequence_type=st["SEQUENCE_CHUNK"], sequence=seq1, parent=top)
+        level_img = img1
+    else:
+        l2_blocks, l2_strand = lv2
+        pos2 = enum_positions(l2_blocks, l2_strand)
+        img2 = "".join((comp(img1[p]) if l2_strand == "MINUS" else img1[p]) for p in pos2)
+        # the level-2 sequence carries no parent of its own (even level), as in the mixed hierarchies this models
+        seq2 = mk_sequence(it, img2, ALPHA, id="lvl2", type="level2")
+        mid = mk_parent(it, id="lvl1", sequence_type=st["SEQUENCE_CHUNK"], sequence=seq1, location=bare(l2_blocks, l2_strand), parent=top)
+        level_parent = mk_parent(it, id="lvl2", sequence_type="level2", sequence=seq2, parent=mid)
+        level_img = img2
+        chain.append((l2_blocks, l2_strand))
+    if max(e for _, e in child_layout) > len(level_img):
+        return 0, []
+    try:
+        child = _mk_loc(it, S, list(child_layout), child_strand, level_parent)
+    except Raised as ex:
+        return 1, [("construct (explicit chain)", f"child {child_layout} on explicit chain {chain} ({style}): {ex.exc_name}", f_type.qual)]
+    cblocks = blocks_of(child)
+    pos = enum_positions(cblocks, child_strand)
+    if not pos:
+        return 0, []
+    strand = child_strand
+    for blocks, sn in reversed(chain):
+        outer = enum_positions(blocks, sn)
+        pos = [outer[p] for p in pos]
+        strand = _rel_compose(strand, sn)
+    desc = f"child {cblocks}:{child_strand} on an explicit Parent chain {chain} (sequence parents: {style})"
+    n += 1
+    k, v = run(it, f_type, [st["CHROMOSOME"]], {}, child)
+    if k != "ok":
+        out.append(("lift by type (explicit chain)", f"{desc}: lift_over_to_first_ancestor_of_type(chromosome) raises {v}", f_type.qual))
+    else:
+        got = [] if is_empty_obj(v) else enum_positions(blocks_of(v), strand_of(v).name)
+        gs = None if is_empty_obj(v) else strand_of(v).name
+        dup = len(set(pos)) != len(pos)
+        if (sorted(got) != sorted(pos) if dup else got != pos) or gs != strand:
+            out.append(("lift by type (explicit chain)", f"{desc}: lifted to {blocks_of(v)}:{gs} = bases {got}; composing the level maps gives {pos} on {strand}", f_type.qual))
+    if lv2 is not None:
+        n += 1
+        k, v = run(it, f_type, [st["SEQUENCE_CHUNK"]], {}, child)
+        outer = enum_positions(*lv2)
+        want1 = [outer[p] for p in enum_positions(cblocks, child_strand)]
+        if k != "ok" or ([] if is_empty_obj(v) else enum_positions(blocks_of(v), strand_of(v).name)) != want1:
+            got = None if k != "ok" else enum_positions(blocks_of(v), strand_of(v).name)
+            if not (k == "ok" and sorted(got) == sorted(want1) and len(set(want1)) != len(want1)):
+                out.append(("lift one level (explicit chain)", f"{desc}: lifted to the first level -> {k}:{got if k == 'ok' else v}; expected {want1}", f_type.qual))
+    return n, out
+
+
 def _chunk_case(repo, it, S, spec):
     layout, sn, cs, ce = spec
     out = []
@@ -208,6 +286,33 @@ def _chunk_case(repo, it, S, spec):
         want = "".join((comp(GENOME[p]) if sn == "MINUS" else GENOME[p]) for p in inside)
         if k3 == "ok" and _seq_str(sv) != want:
             out.append(("chunk sequence", f"{desc}: chunk-relative location extracts {_seq_str(sv)!r}; chromosome stretch is {want!r}", fq))
+        # a location that already is chunk-relative is carried over to another chunk of the same chromosome through the
+        # chromosome: the same window on the opposite strand, and a shifted window
+        for what, (cs2, ce2, cstr) in (("same window, opposite strand", (cs, ce, "MINUS")),
+                                       ("shifted window", (max(0, cs - 2), min(len(GENOME), ce + 1), "PLUS")),
+                                       ("same chunk", (cs, ce, "PLUS"))):
+            cp2 = chunk_parent(it, GENOME, cs2, ce2, alphabet=ALPHA, strand=cstr)
+            n += 1
+            k4, v4 = run(it, f, [v, cp2], {}, None)
+            inside2 = [p for p in inside if cs2 <= p < ce2]
+            if k4 != "ok":
+                out.append((f"chunk to chunk ({what})", f"{desc}: re-lifting the chunk-relative location onto chunk [{cs2},{ce2}){cstr} raises {v4}", fq))
+                continue
+            if is_empty_obj(v4):
+                if inside2:
+                    out.append((f"chunk to chunk ({what})", f"{desc}: re-lifted onto chunk [{cs2},{ce2}){cstr}: EmptyLocation; bases {inside2} are inside", fq))
+                continue
+            k5, back2 = run(it, repo.fn("location.location:Location.lift_over_to_first_ancestor_of_type"), [st["CHROMOSOME"]], {}, v4)
+            got2 = enum_positions(blocks_of(back2), strand_of(back2).name) if k5 == "ok" else None
+            if got2 != inside2 or (k5 == "ok" and strand_of(back2).name != sn):
+                out.append((f"chunk to chunk ({what})", f"{desc}: re-lifted onto chunk [{cs2},{ce2}){cstr} and back to the chromosome -> {k5}:{got2}"
+                            f"{':' + strand_of(back2).name if k5 == 'ok' else ''}; the part inside that chunk is {inside2}:{sn}", fq))
+                continue
+            k6, sv2 = run(it, repo.fn(f"location.location_impl:{v4.cls_name}.extract_sequence"), [], {}, v4)
+            want2 = "".join((comp(GENOME[p]) if sn == "MINUS" else GENOME[p]) for p in inside2)
+            if k6 == "ok" and ut(_seq_str(sv2)) != ut(want2):
+                out.append((f"chunk to chunk ({what}) sequence", f"{desc}: on chunk [{cs2},{ce2}){cstr} the location extracts {_seq_str(sv2)!r}; "
+                            f"chromosome stretch is {want2!r}", fq))
     return n, out
 
 
@@ -261,6 +366,14 @@ def rk_hierarchies(ctx):
             specs.append((lv1, None, lay, sn, "rc"))
     ctx.r.floor("C04.RK", "hierarchy x child location cases", len(specs), 200)
     results = pmap(_runner(ctx.repo, _hier_case), specs)
+    especs = []
+    for i, lv1 in enumerate(LEVEL1):
+        for j, lv2 in enumerate([None] + LEVEL2[:2]):
+            for k_, (lay, sn) in enumerate(children):
+                for style in ("plain", "named", "shallow"):
+                    if ctx.thorough or (i + j + k_ + len(style)) % 3 == 0:
+                        especs.append((lv1, lv2, lay, sn, style))
+    results += pmap(_runner(ctx.repo, _explicit_case), especs)
     _report(ctx, "C04.RK", results, [
         ("location.location:Location.lift_over_to_first_ancestor_of_type", "composition and sequence preservation, depth 1-3"),
         ("location.location:Location.lift_over_to_sequence", "lift by sequence identity / refusals"),
